@@ -95,10 +95,8 @@ def gen_loop(fn):
                     incs = [i2 for i2, e in enumerate(p.events) if e.kind == "stmt" and isinstance(e.node, ast.AugAssign) and access_path(e.node.target) == var]
                     if len(incs) != 1 or not (isinstance(p.events[incs[0]].node.op, ast.Add) and is_const(p.events[incs[0]].node.value) and const_value(p.events[incs[0]].node.value) == 1):
                         return None
-                    # the tag must be written before the increment
-                    tags = [i2 for i2, e in enumerate(p.events) if e.kind == "stmt" and any((access_path(t_) or "").endswith(".population_id") for t_ in store_targets(e.node))]
-                    if tags and tags[-1] > incs[0]:
-                        return None
+                    # (the tag may be written before or after the increment: r1_tags reads it as a term over the
+                    # value the counter had at the head of the iteration)
                 return s, var, start, stop
     return None
 
